@@ -351,7 +351,7 @@ def explore_load(prop, tier, seed, oracle, tags, n_quick, emit=(), with_truth=Fa
             ex.res.count('parser_calls_compared_in_lock_step', sum(len(x.split(' (')) for x in sq_))
             ex.submit(cid, D, o.tags, ['load', 'genes', 'members', 'forest', 'genomes'] + st_, extra=o, hist=False, queries=sq_)
             continue
-        poke = prop in ('C02', 'C04') and ex.rng.random() < 0.15
+        poke = prop in ('C01', 'C02', 'C04') and ex.rng.random() < 0.15
         twice = (not poke) and prop in ('C01', 'C02', 'C04') and ex.rng.random() < 0.08
         if twice:
             # "in every loaded analysis": also the second one built in this process from the same, unchanged Newick file
@@ -371,6 +371,12 @@ def explore_load(prop, tier, seed, oracle, tags, n_quick, emit=(), with_truth=Fa
                 ex.res.count('observed_after_reporting_calls')
                 # genome objects handed out before the reporting calls stay THE genomes of their nodes (gene-less species and
                 # taxa without any family included: r12-C04b replaces "empty" genomes on their nodes)
+                if ex.rng.random() < 0.5:
+                    # iHam pages BEFORE any profile (a whole-dataset profile gives every leaf a genome; before it, species of the
+                    # tree that the file does not declare have none: r13-C04b prunes them from "a copy" of the clade)
+                    for x_ in h.get_list_top_level_hogs()[:3]:
+                        h.create_iHam(x_)
+                    ex.res.count('iham_pages_before_any_profile')
                 held_g_ = [(g_, g_.taxon) for g_ in list(h.get_list_extant_genomes()) + list(h.get_list_ancestral_genomes())]
                 h.create_tree_profile()
                 held_g_ += [(g_, g_.taxon) for g_ in h.get_list_ancestral_genomes()]
@@ -385,6 +391,37 @@ def explore_load(prop, tier, seed, oracle, tags, n_quick, emit=(), with_truth=Fa
                 multi_ = [x for t in h.get_list_top_level_hogs() for x in all_nodes(t) if isinstance(x, ag.HOG) and len(x.duplications) >= 2]
                 for x_ in (multi_[:2] + h.get_list_top_level_hogs()[:2]):
                     h.create_iHam(x_); ob.OrthoXML_manager(x_).get_orthoxml_str()
+                # ... comparisons whose returned containers the caller then edits in place (r13-C01a: GAIN handed out as the
+                # genome's own gene list when the ancestral genome holds no HOG)
+                lv_g_ = [g_ for g_ in h.get_list_extant_genomes()]
+                for ga_, gb_ in [tuple(ex.rng.sample(lv_g_, 2)) for _ in range(3)] if len(lv_g_) >= 2 else []:
+                    try:
+                        ml_ = h.compare_genomes_lateral(ga_, gb_)
+                        for acc_ in (ml_.get_gained, ml_.get_lost, ml_.get_retained, ml_.get_duplicated):
+                            orc.spoil(acc_())
+                        anc_ = h.get_ancestral_genome_by_mrca_of_genome_set({ga_, gb_})
+                        mv_ = h.compare_genomes_vertically(ga_, anc_)
+                        for acc_ in (mv_.get_gained, mv_.get_lost, mv_.get_retained, mv_.get_duplicated):
+                            orc.spoil(acc_())
+                    except Exception as e:      # noqa
+                        o.problems.append('lateral / vertical comparison of %s and %s raised %s' % (ga_.name, gb_.name, type(e).__name__))
+                # ... after all of this the species tree of the analysis is still the input tree (r13-C04b / C10b / C18b: iHam
+                # pruning "a copy" of the clade), every listed genome sits on a node of it, and every declared species is
+                # returned by its name with exactly its genes (r13-C01b: a name index re-pointed at a scratch copy of the tree)
+                live_ = set(id(n_) for n_ in h.taxonomy.tree.traverse())
+                if len(live_) != len(list(gen.paths(D.T))):
+                    o.problems.append('after reporting calls the species tree of the analysis has %d nodes, the input tree %d' % (len(live_), len(list(gen.paths(D.T)))))
+                for g_ in list(h.get_list_extant_genomes()) + list(h.get_list_ancestral_genomes()):
+                    if id(g_.taxon) not in live_:
+                        o.problems.append('after reporting calls genome %s is not bound to a node of the species tree' % g_.name)
+                for sn_ in set(n_ for n_, _ in D.species):
+                    want_ = sorted(g_ for n_, gs_ in D.species if n_ == sn_ for g_, _ in gs_)
+                    try:
+                        gg_ = h.get_extant_genome_by_name(sn_)
+                        if sorted(x_.unique_id for x_ in gg_.genes) != want_ or any(x_.genome is not gg_ for x_ in gg_.genes):
+                            o.problems.append('after reporting calls species %s is returned by name with the genes %s, declared %s' % (sn_, sorted(x_.unique_id for x_ in gg_.genes)[:6], want_[:6]))
+                    except Exception as e:      # noqa
+                        o.problems.append('after reporting calls get_extant_genome_by_name(%r) raised %s' % (sn_, type(e).__name__))
             ob.observe_load(h, o)
             if pyobs:
                 pyobs(h, o)
@@ -612,6 +649,13 @@ def explore_maps(prop, tier, seed, n_quick, mode):
             i_ = max(range(len(D.species)), key=lambda j_: len(D.species[j_][1]))
             D.species[i_] = (D.species[i_][0], list(D.species[i_][1]) + [('zs%d' % j_, [('protId', 'Pzs%d' % j_)]) for j_ in range(1100)])
             ex.res.count('genomes_with_more_than_1000_genes')
+        if k == 2 and mode == 'C05':
+            # one duplication with 256 (a multiple of 256) copies in one species (r13-C05a: copy numbers kept in 8 bits)
+            D = gen.Dataset(('R', (('A', ()), ('B', ()), ('C', ()))), 'own')
+            D.species = [('A', [('a%d' % i_, [('protId', 'Pa%d' % i_)]) for i_ in range(256 if seed % 2 == 0 else 512)]), ('B', [('b1', [('protId', 'Pb1')])]), ('C', [('c1', [])])]
+            D.groups = [('og', '1', None, [('ref', 'b1', None), ('pg', None, [('ref', g_, None) for g_, _ in D.species[0][1]])])]
+            D.families = []; D.base_groups = list(D.groups); D.meta = dict(large=True, wide_duplication=len(D.species[0][1]))
+            ex.res.count('duplications_with_256_or_512_copies')
         cid = '%s-%d' % (prop, k)
         ex.note_dataset(D)
         if ex.rng.random() < 0.2:
@@ -625,7 +669,11 @@ def explore_maps(prop, tier, seed, n_quick, mode):
                 ex.res.count('cases_loaded_and_compared_twice')
             except Exception:      # noqa
                 pass
-        h = load_or_fail(ex, cid, D)
+        import contextlib as _clm, io as _iom
+        with _clm.redirect_stderr(_iom.StringIO()):
+            # (the analysis with the > 1000-gene genome is loaded with progress reporting on: r13-C05b, a batched walk behind a
+            # progress bar that drops the last incomplete batch)
+            h = load_or_fail(ex, cid, D, **(dict(with_parser_progress=True) if k == 1 else {}))
         if h is None:
             continue
         o = ob.Obs(); o.put('load', 'ok')
@@ -639,7 +687,12 @@ def explore_maps(prop, tier, seed, n_quick, mode):
             if mode in ('C05', 'C06'):
                 pairs, gs = orc.lineage_pairs(h)
                 if len(pairs) > 40 and tier == 'quick':
+                    allp_ = pairs
                     pairs = ex.rng.sample(pairs, 40)
+                    if k == 1:
+                        # ... the comparisons that end in the largest genome are always made
+                        big_ = max(gs, key=lambda p_: len(gs[p_].genes))
+                        pairs += [pr_ for pr_ in allp_ if pr_[1] == big_ and pr_ not in pairs]
                 ex.res.count('lineage_pairs', len(pairs))
                 ex.res.count('pairs_nonadjacent', sum(1 for a, d in pairs if len(d) - len(a) > 1))
                 bad = orc.c05(D, h, pairs) if mode == 'C05' else orc.c06(D, h, pairs)
@@ -843,6 +896,12 @@ def explore_profiles(prop, tier, seed, n_quick):
             except Exception as e:      # noqa
                 ex.fail(cid + '-flt', D, ['profiles of a filtered analysis raised %s: %s' % (type(e).__name__, e)])
         try:
+            if ex.rng.random() < 0.2:
+                # iHam pages of the families were built before any profile (r13-C10b / C04b: the page builder prunes species
+                # without genes of the family -- or without <species> element -- from what it takes for a copy of the clade)
+                for t_ in h.get_list_top_level_hogs()[:4]:
+                    h.create_iHam(t_)
+                ex.res.count('iham_pages_before_the_profiles')
             if ex.rng.random() < 0.4:
                 # the profile of some sub-HOG (preferably one written without id) is asked for first
                 subs0 = [x for t in h.get_list_top_level_hogs() for x in all_nodes(t) if isinstance(x, ag.HOG) and x.parent is not None]
